@@ -194,11 +194,43 @@ for api in sorted(os.listdir(root)):
                     out["modules"][name] = gendefs.render_module(m)
                 except BaseException as e:
                     out["import_errors"][name] = f"{type(e).__name__}: {e}"
+# instances of the generated top-level classes through the real writer and reader
+out["instances"] = []
+try:
+    import random, io
+    import gen as G, values as V
+    from kio.serial import entity_reader, entity_writer
+    from kio.schema.errors import ErrorCode
+    codes = sorted(int(m.value) for m in ErrorCode)
+    rng = random.Random(int(sys.argv[3]) if len(sys.argv) > 3 else 0)
+    for name in sorted(out["modules"]):
+        if ".request_header." in name or ".response_header." in name:
+            continue
+        m = importlib.import_module(name)
+        tops = [c for c in vars(m).values() if isinstance(c, type) and getattr(c, "__module__", None) == name
+                and dataclasses.is_dataclass(c) and c.__type__.name != "nested"]
+        for c in tops:
+            g = G.Gen(rng, codes, big_strings=False)
+            for _ in range(2):
+                rec = {"module": name, "class": c.__name__}
+                try:
+                    a = g.instance(c, budget=10)
+                    rec["value"] = V.render(a)
+                    obj = V.build(a, c)
+                    b = io.BytesIO(); entity_writer(c)(b, obj)
+                    rec["bytes"] = b.getvalue().hex()
+                    back = entity_reader(c)(io.BytesIO(b.getvalue() + b"\x01"))
+                    rec["roundtrip"] = (back == obj)
+                except BaseException as e:
+                    rec["error"] = f"{type(e).__name__}: {e}"
+                out["instances"].append(rec)
+except BaseException as e:
+    out["instances_error"] = f"{type(e).__name__}: {e}"
 json.dump(out, open(os.path.join(scratch, "result.json"), "w"))
 '''
 
 
-def run_codegen(defs: list[dict], keep: bool = False) -> dict:
+def run_codegen(defs: list[dict], keep: bool = False, seed: int = 0) -> dict:
     """Run /repo's code generator on `defs` in a scratch tree outside /repo and /verif; import
     what it generated in a subprocess; return the rendered modules.  The tree is removed."""
     scratch = tempfile.mkdtemp(prefix="kio-gen-")
@@ -231,7 +263,7 @@ def run_codegen(defs: list[dict], keep: bool = False) -> dict:
                 json.dump(d, fh, indent=1)
         runner = os.path.join(scratch, "runner.py")
         open(runner, "w").write(RUNNER)
-        p = subprocess.run(["/venv/bin/python", runner, scratch, os.path.dirname(os.path.abspath(__file__))],
+        p = subprocess.run(["/venv/bin/python", runner, scratch, os.path.dirname(os.path.abspath(__file__)), str(seed)],
                            stdout=subprocess.PIPE, stderr=subprocess.PIPE, timeout=1800,
                            env={**os.environ, "PYTHONPATH": ""})
         rp = os.path.join(scratch, "result.json")
